@@ -705,7 +705,7 @@ impl Property for C06 {
         r
     }
     fn rule(&self) -> String {
-        "proptest-generated cases: timeout 0-300 ms fixed or per request, cancel mode on/off, 1-5 concurrent calls with arrival 0-20 ms and inner latency in {0, deadline-1, deadline, deadline+1, below, above, never}, ok/error, poll-order choices; virtual clock. Oracle: latency < timeout: resolves at exactly arrival+latency with its own inner serial/code; latency > timeout or never: Timeout at exactly arrival+timeout; equal: either, at that instant; never later than the deadline. Cancel mode: inner future dropped at the deadline instant and never completes; non-cancel mode: not dropped, completes at arrival+latency. Non-trivial: latency within 1 ms of the deadline, or a timeout in non-cancel mode; distinct by hash of the case".into()
+        "proptest-generated cases: timeout 0-300 ms fixed or per request, cancel mode on/off, 1-5 concurrent calls with arrival 0-20 ms and inner latency in {0, deadline-1, deadline, deadline+1, below, above, never}, ok/error, poll-order choices; virtual clock. Oracle: latency < timeout: resolves at exactly arrival+latency with its own inner serial/code; latency > timeout or never: Timeout at exactly arrival+timeout; equal: either, at that instant; never later than the deadline. Cancel mode: inner future dropped at the deadline instant and never completes; non-cancel mode: not dropped, completes at arrival+latency.Also generated: event listeners; callers that give up before resolution (cancel mode: nothing keeps the inner call alive past the deadline); a caller that is busy elsewhere after its first poll while the inner work is done by a task of its own (a result that was there before the deadline is delivered, not a timeout); a crowd of 66-90 slow calls followed by a quick one. Non-trivial: latency within 1 ms of the deadline, or a timeout in non-cancel mode; distinct by hash of the case".into()
     }
     fn assumptions(&self) -> Vec<String> {
         vec![
